@@ -1,6 +1,7 @@
 (* C10 runner: replays the Dutch-auction traces on the extracted model (DutchV2), diffs the
    projections after every step, evaluates the extracted holds_C10_* predicates on the
-   IMPLEMENTATION's observations and classifies failures by the kf_C10_* predicates. *)
+   IMPLEMENTATION's observations and classifies failures by the kf_C10_* predicates (only kf_C10_1 is
+   left: C10-F2 and C10-F3 are repaired, a recurrence is a plain violation). *)
 open Conv
 open DutchV2
 
@@ -106,7 +107,6 @@ let run (path : string) =
   let prevA : (string * auction) list ref = ref [] in
   let curA : (string * auction) list ref = ref [] in
   let curL : lobs option ref = ref None in
-  let acc_short = ref zzero in
   let targets : (string, locked) Hashtbl.t = Hashtbl.create 8 in
   let sums : (string, BinNums.coq_Z * BinNums.coq_Z) Hashtbl.t = Hashtbl.create 8 in
   (* what the last op was, for the predicate evaluation at the E line *)
@@ -126,7 +126,7 @@ let run (path : string) =
         case := id; step := 0;
         cf := { c_premium = z prem; c_disc = z dsc; c_dur = z du; c_minusd = z mu; c_ki = z ki; c_dc = z dc; c_dd = z dd };
         st := { led = (fun _ -> zzero); rsv = None; xfee = zzero };
-        live := []; rebase := true; prevL := None; prevA := []; curA := []; curL := None; acc_short := zzero;
+        live := []; rebase := true; prevL := None; prevA := []; curA := []; curL := None;
         Hashtbl.reset targets; Hashtbl.reset sums; last_bid := None; last_tick := false; good_bid := false;
         Buffer.clear sig_; Buffer.add_string sig_ (S.concat " " [prem; dsc; du; mu; ki; dc; dd]);
         ()
@@ -140,7 +140,7 @@ let run (path : string) =
          | Base.Ok a -> live := !live @ [ { aid; lk; au = a; ipaid = zzero; irecv = zzero } ]
          | Base.Err _ -> mismatch ~case:!case ~step:!step ~field:"start.result" ~model:"err" ~impl:cls
          | Base.Panic -> mismatch ~case:!case ~step:!step ~field:"start.result" ~model:"panic" ~impl:cls);
-        if kf_C10_3 !cf lk then bump "start:kf_C10_3";
+        if zs lk.l_init = "2" && BinInt.Z.gtb (keeper_incentive !cf lk.l_fee) zzero then bump "start:external_with_incentive";
         rebase := true; last_bid := None; last_tick := false
       | "op" :: "nostart" :: _ ->
         incr step; incr steps; bump "op:nostart"; rebase := true; last_bid := None; last_tick := false
@@ -163,7 +163,7 @@ let run (path : string) =
                 st := s';
                 (match a' with Some a -> m.au <- a; bump "bid:partial" | None -> live := L.filter (fun x -> x.aid <> aid) !live; bump "bid:closing");
                 if r.r_exh then bump "bid:exhausted";
-                if kf_C10_2 r then begin bump "bid:kf_C10_2"; acc_short := zadd !acc_short (zsub r.r_short r.r_topup) end
+                if BinInt.Z.gtb r.r_topup zzero then bump "bid:reserve_topup"
               end
             | Base.Err c ->
               bump ("bid:err" ^ zs c);
@@ -171,10 +171,8 @@ let run (path : string) =
             | Base.Panic ->
               if cls <> "panic" then mismatch ~case:!case ~step:!step ~field:"bid.result" ~model:"panic" ~impl:cls));
         (* "settles completely": a bid message must never panic *)
-        if cls = "panic" then begin
-          let kf = (match Hashtbl.find_opt targets aid with Some lk when kf_C10_3 !cf lk -> "kf_C10_3" | _ -> "none") in
-          predfail ~case:!case ~step:!step ~pred:"bid_no_panic" ~kf ~detail:("aid=" ^ aid ^ "_amt=" ^ amt)
-        end;
+        if cls = "panic" then
+          predfail ~case:!case ~step:!step ~pred:"bid_no_panic" ~kf:"none" ~detail:("aid=" ^ aid ^ "_amt=" ^ amt);
         last_bid := Some (aid, int_of_string who, cls, z twa); last_tick := false
       | "L" :: rest ->
         let o = parse_L rest in
@@ -247,10 +245,11 @@ let run (path : string) =
             | None -> acc) zzero !curA in
         let res_c = zsub o.bals.(0) sum_c in
         let res_d = zsub (zsub o.bals.(1) sum_d) o.xf in
-        if not (holds_C10_custody res_c res_d) then begin
-          let kf = if zeq res_c zzero && zeq (zadd res_d !acc_short) zzero && not (zeq !acc_short zzero) then "kf_C10_2" else "none" in
-          predfail ~case:!case ~step:!step ~pred:"holds_C10_custody" ~kf ~detail:("res_c=" ^ zs res_c ^ "_res_d=" ^ zs res_d)
-        end;
+        if not (holds_C10_custody res_c res_d) then
+          predfail ~case:!case ~step:!step ~pred:"holds_C10_custody" ~kf:"none" ~detail:("res_c=" ^ zs res_c ^ "_res_d=" ^ zs res_d);
+        (* the app reserve record is never negative and is backed by the liquidation module's balance *)
+        if o.rfound && not (holds_C10_reserve o.ramt o.bals.(7)) then
+          predfail ~case:!case ~step:!step ~pred:"holds_C10_reserve" ~kf:"none" ~detail:("record=" ^ zs o.ramt ^ "_liq_balance=" ^ zs o.bals.(7));
         prevL := Some o; prevA := !curA
       | _ -> ()) lines;
   end_case ();
@@ -258,3 +257,216 @@ let run (path : string) =
 
 let () = Conv.register "C10" run
 let () = Conv.register "C10-price" run_price
+
+(* ------------------------------------------------------------------------------------------- *)
+(* entry "C10-v1": generation 1 (x/auction) vault / lend Dutch auctions, keeper-driven histories *)
+open DutchV1
+
+type v1m = { vid : string; vao : BinNums.coq_Z; vcoll : BinNums.coq_Z; mutable vau : v1auc }
+
+(* L line: auc_c auc_d own_c col_d brn_d pool_d lend_d b0c b0d b1c b1d b2c b2d nf_found nf *)
+let v1_ids = [| coq_AUC_C; coq_AUC_D; coq_OWN_C; coq_COL_D; coq_BRN_D; coq_POOL_D; coq_LEND_D;
+                coq_BID_C (z "0"); coq_BID_D (z "0"); coq_BID_C (z "1"); coq_BID_D (z "1"); coq_BID_C (z "2"); coq_BID_D (z "2") |]
+let v1_names = [| "auc_c"; "auc_d"; "own_c"; "col_d"; "brn_d"; "pool_d"; "lend_d"; "b0_c"; "b0_d"; "b1_c"; "b1_d"; "b2_c"; "b2_d" |]
+let v1_n = 13
+
+type v1obs = { vb : BinNums.coq_Z array; nfound : bool; nf : BinNums.coq_Z }
+
+let v1_parse_L toks =
+  let arr = Array.of_list toks in
+  if Array.length arr < v1_n + 2 then failwith "short v1 L line";
+  { vb = Array.init v1_n (fun i -> z arr.(i)); nfound = bool_of_tok arr.(v1_n); nf = z arr.(v1_n + 1) }
+
+let v1_show (a : v1auc) =
+  Printf.sprintf "%s,%s,%s,%s,%s,%s,%s,%s,%s" (zs a.o_cur) (zs a.i_target) (zs a.i_cur) (zs a.p_out) (zs a.p_in)
+    (zs a.p_top) (zs a.p_end) (zs a.t_start) (zs a.t_end)
+
+let run_v1 (path : string) =
+  let lines = read_lines path in
+  let cases = ref 0 and steps = ref 0 and nontrivial = ref 0 in
+  let case = ref "" and step = ref 0 in
+  let cf = ref { v_buffer = zzero; v_cusp = zzero; v_dur = zzero; v_dust = zzero; v_dout = zzero; v_din = zzero; v_lend = false; v_bonus = zzero } in
+  let st = ref { v_led = (fun _ -> zzero); v_netfee = None } in
+  let live : v1m list ref = ref [] in
+  let rebase = ref true in
+  let prevL : v1obs option ref = ref None and curL : v1obs option ref = ref None in
+  let prevA : (string * v1auc) list ref = ref [] and curA : (string * v1auc) list ref = ref [] in
+  let info : (string, BinNums.coq_Z * BinNums.coq_Z) Hashtbl.t = Hashtbl.create 8 in       (* aid -> target, collateral *)
+  let sums : (string, BinNums.coq_Z * BinNums.coq_Z * BinNums.coq_Z) Hashtbl.t = Hashtbl.create 8 in
+  let last_bid : (string * int * string) option ref = ref None in
+  let last_tick = ref false in
+  let good_bid = ref false in
+  let sig_ = Buffer.create 256 in
+  let end_case () =
+    if !case <> "" then begin
+      incr cases; if !good_bid then incr nontrivial;
+      Hashtbl.replace distinct (Digest.string (Buffer.contents sig_)) ()
+    end in
+  L.iter (fun line ->
+      match tokens line with
+      | "case" :: id :: buf :: cusp :: du :: dust :: dc :: dd :: lend :: bonus :: _ ->
+        end_case ();
+        case := id; step := 0;
+        cf := { v_buffer = z buf; v_cusp = z cusp; v_dur = z du; v_dust = z dust; v_dout = z dc; v_din = z dd;
+                v_lend = bool_of_tok lend; v_bonus = z bonus };
+        st := { v_led = (fun _ -> zzero); v_netfee = None };
+        live := []; rebase := true; prevL := None; curL := None; prevA := []; curA := [];
+        Hashtbl.reset info; Hashtbl.reset sums; last_bid := None; last_tick := false; good_bid := false;
+        Buffer.clear sig_; Buffer.add_string sig_ (S.concat " " [buf; cusp; du; dust; dc; dd; lend; bonus])
+      | "op" :: "start" :: aid :: coll :: ao :: pen :: fees :: now :: ai :: pi :: ao_act :: po :: cls :: _ ->
+        incr step; incr steps; bump "v1:op:start";
+        Buffer.add_string sig_ (";S" ^ coll ^ ":" ^ ao);
+        (match v1_activate !cf (z coll) (z ao) (z pen) (z fees) (z now) (zopt ai pi) (zopt ao_act po) with
+         | Base.Ok a ->
+           live := !live @ [ { vid = aid; vao = z ao; vcoll = z coll; vau = a } ];
+           Hashtbl.replace info aid (a.i_target, z coll)
+         | Base.Err _ -> mismatch ~case:!case ~step:!step ~field:"v1.start.result" ~model:"err" ~impl:cls
+         | Base.Panic -> mismatch ~case:!case ~step:!step ~field:"v1.start.result" ~model:"panic" ~impl:cls);
+        rebase := true; last_bid := None; last_tick := false
+      | "op" :: "lstart" :: aid :: coll :: target :: now :: ai :: pi :: ao_act :: po :: cls :: _ ->
+        (* lend: the auction's amounts are computed by the liquidation module; the record is taken as observed *)
+        incr step; incr steps; bump "v1:op:lstart";
+        Buffer.add_string sig_ (";LS" ^ coll ^ ":" ^ target);
+        (match v1_activate !cf (z coll) (z target) zzero zzero (z now) (zopt ai pi) (zopt ao_act po) with
+         | Base.Ok a ->
+           live := !live @ [ { vid = aid; vao = zzero; vcoll = z coll; vau = a } ];
+           Hashtbl.replace info aid (a.i_target, z coll)
+         | Base.Err _ -> mismatch ~case:!case ~step:!step ~field:"v1.start.result" ~model:"err" ~impl:cls
+         | Base.Panic -> mismatch ~case:!case ~step:!step ~field:"v1.start.result" ~model:"panic" ~impl:cls);
+        (* may follow a closing bid (re-liquidation inside the same message): the bid stays the last op *)
+        rebase := true; last_tick := false
+      | "op" :: "nostart" :: _ ->
+        incr step; incr steps; bump "v1:op:nostart"; rebase := true; last_bid := None; last_tick := false
+      | "op" :: "tick" :: now :: ai :: pi :: ao_act :: po :: cls :: _ ->
+        incr step; incr steps; bump "v1:op:tick";
+        Buffer.add_string sig_ (";T" ^ now ^ ai ^ ao_act);
+        if cls <> "ok" then mismatch ~case:!case ~step:!step ~field:"v1.tick.result" ~model:"ok" ~impl:cls;
+        L.iter (fun m -> m.vau <- v1_tick !cf (z now) (zopt ai pi) (zopt ao_act po) m.vau) !live;
+        last_bid := None; last_tick := true
+      | "op" :: "bid" :: aid :: who :: amt :: wrong :: cls :: _ ->
+        incr step; incr steps; bump "v1:op:bid"; bump ("v1:bid:" ^ cls);
+        Buffer.add_string sig_ (";B" ^ aid ^ ":" ^ who ^ ":" ^ amt ^ wrong);
+        (match L.find_opt (fun m -> m.vid = aid) !live with
+         | None -> if cls <> "err" then mismatch ~case:!case ~step:!step ~field:"v1.bid.result" ~model:"err(no auction)" ~impl:cls
+         | Some m ->
+           (match v1_place_bid !cf m.vao m.vau !st (z who) (z amt) (bool_of_tok wrong) with
+            | Base.Ok ((s', a'), r) ->
+              if cls <> "ok" then mismatch ~case:!case ~step:!step ~field:"v1.bid.result" ~model:"ok" ~impl:cls
+              else begin
+                st := s';
+                (match a' with Some a -> m.vau <- a; bump "v1:bid:partial"
+                             | None -> live := L.filter (fun x -> x.vid <> aid) !live; bump "v1:bid:closing");
+                if r.w_reached then bump "v1:bid:target_reached";
+                if BinInt.Z.gtb r.w_topup zzero then bump "v1:bid:sold_out_topup"
+              end
+            | Base.Err c ->
+              bump ("v1:bid:err" ^ zs c);
+              if cls <> "err" then mismatch ~case:!case ~step:!step ~field:"v1.bid.result" ~model:("err" ^ zs c) ~impl:cls
+            | Base.Panic ->
+              if cls <> "panic" then mismatch ~case:!case ~step:!step ~field:"v1.bid.result" ~model:"panic" ~impl:cls));
+        if cls = "panic" then bump "v1:bid:panic_observed";
+        last_bid := Some (aid, int_of_string who, cls); last_tick := false
+      | "L" :: rest ->
+        let o = v1_parse_L rest in
+        curL := Some o; curA := [];
+        if !rebase then begin
+          let l = ref (fun _ -> zzero) in
+          Array.iteri (fun i id -> l := upd !l id o.vb.(i)) v1_ids;
+          st := { v_led = !l; v_netfee = (if o.nfound then Some o.nf else None) }; rebase := false
+        end else begin
+          if !cf.v_lend then begin
+            (* lend: the close also books interest between pool and reserve; only their sum is compared *)
+            Array.iteri (fun i id ->
+                if i <> 5 && i <> 6 && i <> 3 && i <> 4 then begin
+                  let mv = !st.v_led id in
+                  if not (zeq mv o.vb.(i)) then
+                    mismatch ~case:!case ~step:!step ~field:("v1.ledger." ^ v1_names.(i)) ~model:(zs mv) ~impl:(zs o.vb.(i)) end) v1_ids;
+            let ms = zadd (!st.v_led coq_POOL_D) (!st.v_led coq_LEND_D) and is = zadd o.vb.(5) o.vb.(6) in
+            if not (zeq ms is) then mismatch ~case:!case ~step:!step ~field:"v1.ledger.pool+reserve" ~model:(zs ms) ~impl:(zs is)
+          end else begin
+            Array.iteri (fun i id ->
+                let mv = !st.v_led id in
+                if not (zeq mv o.vb.(i)) then
+                  mismatch ~case:!case ~step:!step ~field:("v1.ledger." ^ v1_names.(i)) ~model:(zs mv) ~impl:(zs o.vb.(i))) v1_ids;
+            let mr = (match !st.v_netfee with Some r -> "1:" ^ zs r | None -> "0:0") in
+            let ir = (if o.nfound then "1:" else "0:") ^ zs o.nf in
+            if mr <> ir then mismatch ~case:!case ~step:!step ~field:"v1.netfee" ~model:mr ~impl:ir
+          end
+        end
+      | "A" :: aid :: ocur :: itarget :: icur :: pout :: pin :: ptop :: pend :: s :: e :: _ ->
+        curA := !curA @ [ (aid, { o_cur = z ocur; i_target = z itarget; i_cur = z icur; p_out = z pout; p_in = z pin;
+                                  p_top = z ptop; p_end = z pend; t_start = z s; t_end = z e }) ]
+      | "E" :: _ ->
+        let ms = S.concat "|" (L.map (fun m -> m.vid ^ ":" ^ v1_show m.vau) !live) in
+        let is = S.concat "|" (L.map (fun (aid, a) -> aid ^ ":" ^ v1_show a) !curA) in
+        if ms <> is then mismatch ~case:!case ~step:!step ~field:"v1.auctions" ~model:ms ~impl:is;
+        let o = (match !curL with Some o -> o | None -> failwith "E without L") in
+        (* price clauses between consecutive observations with the same StartTime *)
+        if !last_tick then
+          L.iter (fun (aid, a) ->
+              match L.assoc_opt aid !prevA with
+              | Some pa when zeq pa.t_start a.t_start ->
+                if not (zeq pa.p_out a.p_out) then bump "v1:tick:price_moved";
+                if not (holds_C10_price_mono a.p_top pa.p_out a.p_out) then
+                  predfail ~case:!case ~step:!step ~pred:"holds_C10_price_mono(v1)" ~kf:"none"
+                    ~detail:("aid=" ^ aid ^ "_prev=" ^ zs pa.p_out ^ "_cur=" ^ zs a.p_out)
+                else if not (BinInt.Z.leb a.p_end a.p_out) then begin
+                  (* below the stored end price: the same truncation as C10-F1 *)
+                  let kf = if kf_C10_1 a.p_top !cf.v_cusp !cf.v_dur then "kf_C10_1" else "none" in
+                  predfail ~case:!case ~step:!step ~pred:"holds_C10_price(v1)" ~kf
+                    ~detail:("aid=" ^ aid ^ "_price=" ^ zs a.p_out ^ "_end=" ^ zs a.p_end)
+                end
+              | Some _ -> bump "v1:tick:restart"
+              | None -> ()) !curA;
+        (* the bid clauses, from the IMPLEMENTATION's balances *)
+        (match !last_bid, !prevL with
+         | Some (aid, who, "ok"), Some pl ->
+           good_bid := true;
+           (match L.assoc_opt aid !prevA, Hashtbl.find_opt info aid with
+            | Some pa, Some (target, coll) ->
+              let paid = zsub pl.vb.(8 + 2 * who) o.vb.(8 + 2 * who) in
+              let recv = zsub o.vb.(7 + 2 * who) pl.vb.(7 + 2 * who) in
+              let slice = (match L.assoc_opt aid !curA with
+                  | Some ca -> zsub pa.o_cur ca.o_cur
+                  | None -> zsub pa.o_cur (zsub o.vb.(2) pl.vb.(2))) in      (* closed: what did not go to the owner *)
+              let tab = zsub pa.i_target pa.i_cur in
+              let bonus = if !cf.v_lend then !cf.v_bonus else zzero in
+              if not (holds_C10_v1_bid !cf.v_dout !cf.v_din pa.p_out pa.p_in bonus pa.o_cur tab paid recv slice) then
+                predfail ~case:!case ~step:!step ~pred:"holds_C10_v1_bid" ~kf:"none"
+                  ~detail:("aid=" ^ aid ^ "_paid=" ^ zs paid ^ "_recv=" ^ zs recv ^ "_slice=" ^ zs slice);
+              let (sp, ss, sb) = (try Hashtbl.find sums aid with Not_found -> (zzero, zzero, zzero)) in
+              let sp = zadd sp paid and ss = zadd ss slice and sb = zadd sb (zsub recv slice) in
+              Hashtbl.replace sums aid (sp, ss, sb);
+              if not (holds_C10_v1_totals target coll bonus sp ss sb) then
+                predfail ~case:!case ~step:!step ~pred:"holds_C10_v1_totals" ~kf:"none"
+                  ~detail:("aid=" ^ aid ^ "_paid=" ^ zs sp ^ "_slices=" ^ zs ss ^ "_bonus=" ^ zs sb)
+            | _ -> ())
+         | _ -> ());
+        (* custody: the auction account holds the live auctions' collateral (vault: and the debt collected so far) *)
+        let sum_c = L.fold_left (fun acc (_, a) -> zadd acc a.o_cur) zzero !curA in
+        let sum_d = if !cf.v_lend then zzero else L.fold_left (fun acc (_, a) -> zadd acc a.i_cur) zzero !curA in
+        let res_c = zsub o.vb.(0) sum_c and res_d = zsub o.vb.(1) sum_d in
+        if not !cf.v_lend then begin
+          if not (holds_C10_v1_custody res_c res_d) then
+            predfail ~case:!case ~step:!step ~pred:"holds_C10_v1_custody" ~kf:"none" ~detail:("res_c=" ^ zs res_c ^ "_res_d=" ^ zs res_d)
+        end else begin
+          (* lend: everything that ever entered the account went to bidders / owners or is still there; the
+             accounting identity of c10_v1_custody must hold at every step, the custody clause itself once no
+             auction is live (while one is, the pre-funded bonus still to be paid sits in the account) *)
+          let funded = zadd (zadd o.vb.(0) o.vb.(2)) (zadd o.vb.(7) (zadd o.vb.(9) o.vb.(11))) in
+          let coll_total = Hashtbl.fold (fun _ (_, c) acc -> zadd acc c) info zzero in
+          let bonus_total = Hashtbl.fold (fun _ (_, _, b) acc -> zadd acc b) sums zzero in
+          if not (zeq res_c (zsub (zsub funded coll_total) bonus_total)) || BinInt.Z.ltb res_c zzero || not (zeq res_d zzero) then
+            predfail ~case:!case ~step:!step ~pred:"v1_lend_accounting" ~kf:"none"
+              ~detail:("res_c=" ^ zs res_c ^ "_res_d=" ^ zs res_d ^ "_funded=" ^ zs funded ^ "_coll=" ^ zs coll_total ^ "_bonus=" ^ zs bonus_total)
+          else if !curA = [] && not (holds_C10_v1_custody res_c res_d) then begin
+            let kf = if kf_C10_4 true funded coll_total bonus_total then "kf_C10_4" else "none" in
+            predfail ~case:!case ~step:!step ~pred:"holds_C10_v1_custody" ~kf ~detail:("res_c=" ^ zs res_c ^ "_no_auction_live")
+          end
+        end;
+        prevL := Some o; prevA := !curA
+      | _ -> ()) lines;
+  end_case ();
+  finish ~cases:!cases ~steps:!steps ~nontrivial:!nontrivial
+
+let () = Conv.register "C10-v1" run_v1
